@@ -163,6 +163,17 @@ for t_i in range(2 if Q else 12):
     kinds = [("sdh", lambda: scat.scat_factory("sdh", block, radius=0.4e-3))]
     if t_i == 0 or not Q:
         kinds.append(("crack_centre", lambda: scat.scat_factory("crack_centre", block, crack_length=1.0e-3)))
+
+    def tabulated():
+        # a data-backed scatterer: reciprocal matrices tabulated at 2 or 3 frequencies; the model frequencies below lie
+        # inside AND outside the tabulated range (linear interpolation / extrapolation keeps the data reciprocal)
+        nf_, na_ = int(rng.integers(2, 4)), int(rng.integers(6, 20))
+        fs_ = np.sort(rng.uniform(0.8, 1.3, nf_)) * freq
+        mats_ = [reciprocal_matrices(na_, block.longitudinal_vel, block.transverse_vel) for _ in range(nf_)]
+        return scat.ScatFromData.from_dict(fs_, {k: np.stack([m[k] for m in mats_]) for k in ("LL", "LT", "TL", "TT")})
+    kinds.append(("tabulated", tabulated))
+    # several non-zero frequencies in one call (the multi-frequency model): every bin must be reciprocal
+    freqs = np.array([freq, 0.7 * freq, 1.6 * freq]) if t_i % 2 == 0 else np.array([freq])
     for sname, mk in kinds:
         for nang in (0, 24):
             if sname == "crack_centre" and nang == 0 and Q:
@@ -170,21 +181,22 @@ for t_i in range(2 if Q else 12):
             obj = mk()
             opts = dict(probe_element_width=0.5e-3, scat_angle=0.3, numangles_for_scat_precomp=nang)
             some = {k: v for k, v in views.items() if k == "L-L"}
-            list(bim.scat_unshifted_transfer_functions(some, tx, rx, freq, obj, **opts))       # history
-            tfs = {vn: tf for vn, (tf, _) in zip(views, bim.scat_unshifted_transfer_functions(views, tx, rx, freq, obj, **opts))}
-            scale = max(float(np.nanmax(np.abs(a))) for a in tfs.values()) or 1.0
+            opts["first_nonzero_freq_idx"] = 0
+            list(bim.scat_unshifted_transfer_functions(some, tx, rx, freqs, obj, **opts))       # history
+            tfs = {vn: tf for vn, (tf, _) in zip(views, bim.scat_unshifted_transfer_functions(views, tx, rx, freqs, obj, **opts))}
             tol = RTOL if nang == 0 else 1e-9
-            for vn, a in tfs.items():
+            for (vn, a), fbin in itertools.product(tfs.items(), range(len(freqs))):
+                scale = max(float(np.nanmax(np.abs(x[..., fbin]))) for x in tfs.values()) or 1.0
                 rvn = arim.ut.reciprocal_viewname(vn)
-                A = a[..., 0].reshape(a.shape[0], numel, numel)
-                Bt = np.transpose(tfs[rvn][..., 0].reshape(a.shape[0], numel, numel), (0, 2, 1))
+                A = a[..., fbin].reshape(a.shape[0], numel, numel)
+                Bt = np.transpose(tfs[rvn][..., fbin].reshape(a.shape[0], numel, numel), (0, 2, 1))
                 ok_mask = np.isfinite(A) & np.isfinite(Bt)
                 if not ok_mask.any():
                     continue
                 diff = np.where(ok_mask, np.abs(A - Bt), 0.0)
                 res = float(np.max(diff) / scale)
                 evaluations += A.size
-                nontrivial.add(("pipeline", t_i, sname, nang, vn))
+                nontrivial.add(("pipeline", t_i, sname, nang, vn, fbin))
                 chk.count(pipeline=f"{sname}:numangles={nang}")
                 if not (res <= tol):
                     g_, i, j = np.unravel_index(int(np.argmax(diff)), A.shape)
@@ -193,7 +205,7 @@ for t_i in range(2 if Q else 12):
                                   f"(numangles_for_scat_precomp={nang}, scatterer object used before for the L-L view alone)",
                                   {"view": vn, "reciprocal_view": rvn, "scatterer": sname, "numangles_for_scat_precomp": nang,
                                    "i": int(i), "j": int(j), "H_ij": A[g_, i, j], "H_ji_reciprocal": Bt[g_, i, j],
-                                   "relative_residual": res, "frequency": freq})
+                                   "relative_residual": res, "frequencies": freqs, "frequency_bin": int(fbin)})
 
 # ---------------------------------------------------------------------------
 # captures other than FMC: one transmitter for all timetraces, a single timetrace, HMC, random
